@@ -5,12 +5,12 @@
 # template counts.  Readings (DESIGN Appendix G / 2.13): raw channel indices of different probes are NOT required to
 # be disjoint (only: block k of channel_map.npy = probe k's map in input order plus ONE per-probe constant); "keeps
 # different probes apart" = the x-extents of different probes' blocks do not meet; a matrix that some probe lacks
-# cannot be block-diagonal "with the per-probe matrices as blocks", so it must not be written at all.
+# is either not written (the code's choice) or still has the full size and the existing per-probe matrices as diagonal blocks.
 # Index tables hold non-negative local indices; all probes use the same dtype for the same file and the same
 # number of waveform samples and of table columns (the merger's own stated assumption).
-import os, io, itertools, contextlib, runpy
+import os, io, json, atexit, shutil, tempfile, itertools, contextlib, runpy
 import numpy as np
-from concrete.common import tempdir, dir_digest
+from concrete.common import dir_digest
 from concrete.b11 import write_probe, probe_defaults
 
 from phylib.io import merge as M
@@ -123,8 +123,20 @@ def check_misc(out, S, loaded=False):
             a = np.load(path)
             exp = block_diagonal([s['truth'][fn] for s in S])
             yield 'matrix-is-block-diagonal-of-per-probe-matrices[%s]' % fn, a.shape == exp.shape and np.array_equal(a, exp), (a.tolist(), exp.tolist())
-        else:
-            yield 'matrix-missing-in-some-probe-is-not-written[%s]' % fn, not os.path.exists(path), ''
+        elif os.path.exists(path):
+            # some probe lacks the matrix: either nothing is written (what the code does) or a full-size block-diagonal matrix
+            # carrying the matrices of the probes that have one
+            a = np.load(path)
+            sizes = cum(s['nt' if flag == 'similar' else 'nc'] for s in S)
+            ok = a.shape == (sizes[-1], sizes[-1])
+            if ok:
+                off = a.astype(np.float64).copy()
+                for k, s in enumerate(S):
+                    blk = a[sizes[k]:sizes[k + 1], sizes[k]:sizes[k + 1]]
+                    ok = ok and (not s[flag] or np.array_equal(blk, s['truth'][fn]))
+                    off[sizes[k]:sizes[k + 1], sizes[k]:sizes[k + 1]] = 0
+                ok = ok and not off.any()
+            yield 'matrix-missing-in-some-probe-not-written-or-still-block-structured[%s]' % fn, ok, a.tolist()
 
 
 def check_params(out, S):
@@ -144,29 +156,61 @@ def check_spike_template_numbering(out, S):
     yield 'spike-template-ids-point-at-the-offset-index-of-their-template', ok, (st.tolist(), T)
 
 
-# part -> (Merger methods called, clause groups, input files the methods read (None: complete directories))
+# The writers run in the driver's own order up to the one under test (they hand state to each other through the Merger
+# object: spike_order, cluster/template/channel offsets); write_misc and write_params only read files.
+ORDER = ['write_params', 'write_probe_desc', 'write_spike_times', 'write_spike_data', 'write_spike_clusters', 'write_cluster_data',
+         'write_channel_data', 'write_channel_positions', 'write_templates', 'write_template_data', 'write_misc']
+
+
+def upto(name):
+    return tuple(ORDER[:ORDER.index(name) + 1])
+
+
+# part -> (Merger methods called, clause groups)
 PARTS = {
-    'channels': (('write_channel_data', 'write_channel_positions'), (check_channels, check_positions), {'channel_map.npy', 'channel_positions.npy'}),
-    'templates': (('write_templates',), (check_templates,), {'templates.npy'}),
-    'template_data': (('write_channel_data', 'write_template_data'), (check_template_data,),
-                      {'channel_map.npy', 'pc_feature_ind.npy', 'template_feature_ind.npy'}),
-    'misc': (('write_misc',), (check_misc,), set(MATRICES)),
-    'params': (('write_params',), (check_params,), {'params.py'}),
+    'channels': (upto('write_channel_positions'), (check_channels, check_positions)),
+    'templates': (upto('write_templates'), (check_templates,)),
+    'template_data': (upto('write_template_data'), (check_template_data,)),
+    'misc': (('write_misc',), (check_misc,)),
+    'params': (('write_params',), (check_params,)),
     'merge_e2e': (('merge',), (check_params, check_channels, check_positions, check_templates, check_template_data, check_misc,
-                               check_spike_template_numbering), None),
+                               check_spike_template_numbering)),
 }
+
+# The (complete) input directories of one input are written once and shared by the parts evaluated on it in a row: the
+# writers must leave them byte-identical (checked around every call; a violation discards the shared copy).
+_SHARED = {}
+
+
+def _drop_shared():
+    if _SHARED:
+        shutil.rmtree(_SHARED['root'], ignore_errors=True)
+        _SHARED.clear()
+
+
+atexit.register(_drop_shared)
+
+
+def shared_inputs(specs):
+    key = json.dumps(specs, sort_keys=True)
+    if _SHARED.get('key') != key:
+        _drop_shared()
+        root = tempfile.mkdtemp(prefix='pvc_')
+        dirs = [os.path.join(root, 'probe%d' % p) for p in range(len(specs))]
+        S = [write_probe(d, p, s) for p, (d, s) in enumerate(zip(dirs, specs))]
+        _SHARED.update(key=key, root=root, dirs=dirs, S=S, digest=[dir_digest(d) for d in dirs], n=0)
+    _SHARED['n'] += 1
+    return _SHARED
 
 
 def make_case(part):
-    calls, checks, only = PARTS[part]
+    calls, checks = PARTS[part]
 
     def case(inp):
-        specs = inp['probes']
-        with tempdir() as root:
-            dirs = [os.path.join(root, 'probe%d' % p) for p in range(len(specs))]
-            S = [write_probe(d, p, s, only) for p, (d, s) in enumerate(zip(dirs, specs))]
-            out = os.path.join(root, 'merged')
-            before = [dir_digest(d) for d in dirs]
+        sh = shared_inputs(inp['probes'])
+        dirs, S = sh['dirs'], sh['S']
+        out = os.path.join(sh['root'], 'merged%d' % sh['n'])
+        try:
             m = M.Merger(dirs, out)
             model = None
             for c in calls:
@@ -175,7 +219,10 @@ def make_case(part):
                         model = m.merge()
                 else:
                     getattr(m, c)()
-            yield 'input-directories-byte-identical', before == [dir_digest(d) for d in dirs], ''
+            same = sh['digest'] == [dir_digest(d) for d in dirs]
+            if not same:
+                _SHARED['key'] = None
+            yield 'input-directories-byte-identical', same, ''
             for chk in checks:
                 yield from (chk(out, S, True) if chk is check_misc and model is not None else chk(out, S))
             if model is not None:
@@ -184,6 +231,12 @@ def make_case(part):
                 yield 'model-keeps-sampling-rate', float(model.sample_rate) == float(S[0]['sr']), model.sample_rate
                 yield 'model-channel-probes', np.asarray(model.channel_probes).tolist() == [k for k, s in enumerate(S) for _ in range(s['nc'])], ''
                 model.close()
+        except BaseException:
+            if sh['digest'] != [dir_digest(d) for d in dirs]:
+                _SHARED['key'] = None
+            raise
+        finally:
+            shutil.rmtree(out, ignore_errors=True)
     return case
 
 
@@ -368,7 +421,7 @@ def enumerate_cases(ctx):
     ctx.scope('every Merger channel/template writer separately on real directories: 1..3 probes, every combination of channel counts '
               '1..3 and template counts 1..3 per probe (3 probes: %s), channel maps identity/reversed/one-based/rotated/gapped, '
               '4 x-layouts incl. single columns at x=0 and x=5, signed/unsigned map and table dtypes, matrices in all/some/none of '
-              'the probes, raw files wider than the map' % ('a seeded third of the 729 combinations' if quick else 'all 729'))
+              'the probes, raw files wider than the map' % ('a seeded eighth of the 729 combinations' if quick else 'all 729'))
     for a in pairs:
         run_parts([a])
     for a in pairs:
@@ -377,7 +430,7 @@ def enumerate_cases(ctx):
     for a in pairs:
         for b in pairs:
             for c in pairs:
-                if quick and R.randrange(3):
+                if quick and R.randrange(8):
                     continue
                 run_parts([a, b, c])
     # the input classes where a cumulative offset and the convention actually used by the code coincide: keeps the
@@ -387,6 +440,8 @@ def enumerate_cases(ctx):
     for k in (2, 3, 4):
         for sizes in itertools.product((2, 3, 4), repeat=k):
             if k == 4 and (quick or len(set(sizes)) == 1) and R.randrange(4):
+                continue
+            if k == 3 and quick and R.randrange(2):
                 continue
             for mk in ('one-based', 'rotated-one-based'):
                 fx = {'map': mk, 'chanmap_dtype': 'int32', 'ind_dtype': R.choice(('int32', 'int64')), 'pos': R.choice(('two-columns', 'wide'))}
